@@ -6,6 +6,7 @@ pub mod common;
 pub mod crash;
 pub mod dequant;
 pub mod headers;
+#[cfg(feature = "internals")]
 pub mod idct;
 pub mod inter;
 pub mod intra;
@@ -24,6 +25,7 @@ pub fn run(id: &str, tier: Tier) -> Option<Report> {
         "C02" => intra::run(tier),
         "C03" => inter::run_c03(tier),
         "C12" => inter::run_c12(tier),
+        #[cfg(feature = "internals")]
         "C10" => idct::run(tier),
         "C11" => dequant::run(tier),
         "C04" => refgraph::run(tier),
